@@ -194,10 +194,28 @@ class Transform(Copyable):
             return self._apply(x, **kwargs)
         else:
             outputs = []
+            # per-batch masks of the points a batch refused because they lie
+            # outside the transform's domain (e.g. a piecewise affine member
+            # of a chain): the error that is finally raised has to describe
+            # every point of x, not only the first failing batch
+            outside = []
+            domain_error = None
             n_points = x.shape[0]
             for lo_ind in range(0, n_points, batch_size):
                 hi_ind = lo_ind + batch_size
-                outputs.append(self._apply(x[lo_ind:hi_ind], **kwargs))
+                batch = x[lo_ind:hi_ind]
+                try:
+                    outputs.append(self._apply(batch, **kwargs))
+                except Exception as e:
+                    mask = getattr(e, "points_outside_source_domain", None)
+                    if mask is None or len(mask) != batch.shape[0]:
+                        raise
+                    domain_error = e
+                    outside.append(np.asarray(mask, dtype=bool))
+                else:
+                    outside.append(np.zeros(batch.shape[0], dtype=bool))
+            if domain_error is not None:
+                raise type(domain_error)(np.hstack(outside))
             if not outputs:
                 # no points, so no batches: same as the unbatched call
                 return self._apply(x, **kwargs)
